@@ -40,7 +40,8 @@ ASSUMPTIONS = [
     "any exception out of generator.close() is accepted (OutsideException is by design)",
 ]
 REQUIRED = {"scheduled_runs": 300, "faults_delivered": 200, "closes_checked": 30, "fault_free_runs": 30,
-            "single_thread_runs": 50, "scheduling_points": 20000, "real_thread_runs": 20}
+            "single_thread_runs": 50, "scheduling_points": 20000, "real_thread_runs": 20,
+            "process_pool_faults_delivered": 20}
 UNIT_TIMEOUT = 1500
 
 ROWS_EV = [(0, 2, 1), (3, 5, 2), (6, 8, 3), (10, 12, 4), (13, 14, 5), (16, 19, 6)]
@@ -324,10 +325,77 @@ def all_jobs(tier):
     return jobs
 
 
+# ---------------------------------------------------------------- failures inside pool worker PROCESSES
+MP_ROWS = ((0, 500, 1), (800, 1200, 2), (3000, 3500, 3), (3600, 4000, 4), (6000, 6400, 5), (9000, 9300, 6))
+MP_CUTS = (0, 2000, 5000, 10000)
+
+
+def mp_jobs():
+    jobs = []
+    for inline in (False, True):
+        for plugin in ("mprow", "mpmulti", "mptop"):
+            for ci in range(len(MP_CUTS) - 1):
+                jobs.append({"inline": inline, "kind": "plugin", "plugin": plugin, "chunk": ci})
+    for dtype in ("mpsrc", "mprow", "mpma", "mptop"):
+        for ci in (0, 2):
+            for op in ("open:w", "os.rename"):
+                jobs.append({"inline": True, "kind": "saver", "dtype": dtype, "chunk": ci, "op": op})
+    return jobs
+
+
+def run_mp_job(job):
+    """A plugin computation or an inlined saver fails in a worker process of the pool: the caller must get that
+    exception (it crosses the process boundary pickled), all pipeline threads must end, no timeout."""
+    import multiprocessing as _mp
+
+    from vf.harness import mp_plugins as mp
+
+    if _mp.get_start_method(allow_none=True) != "forkserver":
+        _mp.set_start_method("forkserver", force=True)
+        _mp.set_forkserver_preload(["strax", "vf.harness.mp_plugins"])
+    d = hrun.mktemp("c06mp-")
+    marker = d.rstrip("/") + ".fired"
+    cfg = dict(mp_rows=MP_ROWS, mp_cuts=MP_CUTS)
+    if job["kind"] == "plugin":
+        cfg["mp_fail"] = {"plugin": job["plugin"], "start": MP_CUTS[job["chunk"]]}
+        want_msg = f"injected failure in {job['plugin']} at chunk starting at {MP_CUTS[job['chunk']]}"
+    else:
+        cfg["mp_fault"] = {"dtype": job["dtype"], "chunk": job["chunk"], "op": job["op"], "mode": "raise", "marker": marker}
+        want_msg = "injected I/O error in a pool worker process"
+    v = []
+    before = hrun.threads_snapshot()
+    try:
+        st = strax.Context(storage=[strax.DataDirectory(d)], register=mp.ALL_INLINE if job["inline"] else mp.ALL, config=cfg,
+                           allow_multiprocess=True, allow_lazy=False, max_messages=10, timeout=60, processors=["threaded_mailbox"])
+        exc = None
+        try:
+            with common.quiet():
+                st.make("0", "mptop", progress_bar=False, max_workers=2)
+        except BaseException as e:  # noqa: BLE001
+            exc = e
+        reached = job["kind"] == "plugin" or os.path.exists(marker)
+        if not reached:
+            return v, False
+        if exc is None:
+            v.append(("swallowed", f"{job}: the failure happened in a worker process but make() returned normally"))
+        elif want_msg not in str(exc):
+            kind = "timeout-instead" if "Timeout" in type(exc).__name__ else "wrong-exception"
+            v.append((kind, f"{job}: caller received {type(exc).__name__}: {str(exc)[:200]}"))
+        left = hrun.leaked_threads(before)
+        if left:
+            v.append(("threads-left", f"{job}: threads still alive after the call returned: {left[:5]}"))
+    finally:
+        hrun.rm(d)
+        if os.path.exists(marker):
+            os.remove(marker)
+    return v, True
+
+
 def units(tier, seed):
     n = 32
     us = [{"name": f"faults-{k}", "fam": "sched", "shard": k, "nshards": n, "seed": seed, "tier": tier} for k in range(n)]
     us.append({"name": "realthreads", "fam": "real", "seed": seed, "tier": tier})
+    us += [{"name": f"procpool-{k}", "fam": "mp", "shard": k, "nshards": 4, "seed": seed, "tier": tier} for k in range(4)]
     return us
 
 
@@ -358,6 +426,25 @@ def run_unit(u):
                                           "what": f"{kind}: {text}"[:600],
                                           "case": {"job": job, "choices": out.get("choices", [])[:5000]}})
 
+    if u["fam"] == "mp":
+        for ji, job in enumerate(mp_jobs()):
+            if ji % u["nshards"] != u["shard"]:
+                continue
+            if q and job["kind"] == "plugin" and job["chunk"] == 1:
+                continue
+            verdicts, reached = run_mp_job(job)
+            res["evaluations"] += 1
+            if reached:
+                res["hashes"].append(common.chash(job))
+                if not verdicts:
+                    cnt["process_pool_faults_delivered"] = cnt.get("process_pool_faults_delivered", 0) + 1
+            for kind, text in verdicts:
+                res["violations"].append({"sig": {"kind": kind, "stage": "pool_process_" + job["kind"], "processor": "threaded_mailbox",
+                                                  "lazy": False, "pool": "process", "graph": "mp_inline" if job["inline"] else "mp"},
+                                          "what": f"{kind}: {text}"[:600], "case": {"mp_job": job}})
+        if not res["samples"]:
+            res["samples"].append({"process_pool_jobs": len(mp_jobs())})
+        return res
     if u["fam"] == "real":
         for ji, job in enumerate(jobs):
             if job["cfg"]["processor"] != "threaded_mailbox" or ji % (5 if q else 1):
@@ -394,6 +481,9 @@ def run_unit(u):
 
 
 def replay(case):
+    if "mp_job" in case:
+        verdicts, _ = run_mp_job(case["mp_job"])
+        return [{"sig": {"kind": k}, "what": t, "case": case} for k, t in verdicts]
     job = case["job"]
     G = graphs()
     g = G[job["g"]]
